@@ -205,6 +205,7 @@ func runCase(c *core.Ctx, slot int, stream string, idx int, p *prog, cfg dcfg, s
 		c.Inconclusive("parse (debugged): "+err.Error(), stream, idx, p.src)
 		return
 	}
+	s.stream, s.idx = stream, idx
 	defer s.close()
 	detail := func(extra map[string]interface{}) map[string]interface{} {
 		d := map[string]interface{}{"program": p.src, "config": cfg.String()}
